@@ -16,7 +16,8 @@ import logging
 from bert_e import exceptions
 from bert_e.job import APIJob, PullRequestJob, handler
 from bert_e.workflow.git_utils import clone_git_repo, push
-from bert_e.workflow.gitwaterflow.branches import (branch_factory,
+from bert_e.workflow.gitwaterflow.branches import (QueueBranch,
+                                                   branch_factory,
                                                    build_queue_collection)
 
 
@@ -52,10 +53,17 @@ def rebuild_queues(job: RebuildQueuesJob):
     if not queue_branches:
         raise exceptions.JobSuccess()
 
-    branch_factory(
-        repo,
-        'development/{}'.format(queue_branches[0].version)
-    ).checkout()
+    # Leave the branches that are about to be deleted. The first queue may
+    # belong to a stabilization or hotfix branch: check out its own
+    # destination rather than a development branch named after its version.
+    master_queues = [b for b in queue_branches if isinstance(b, QueueBranch)]
+    if master_queues:
+        master_queues[0].dst_branch.checkout()
+    else:
+        branch_factory(
+            repo,
+            'development/{}'.format(queue_branches[0].version)
+        ).checkout()
 
     for branch in queue_branches:
         branch.remove(do_push=False)
